@@ -27,7 +27,7 @@
    must pass every ALGEBRAIC check, so that only the commitment comparison can reject it).
 
    An element of the field is a tuple of d base coordinates (d = 1, 2, 3), as in FieldP/PolyP. *)
-EXTENDS PolyP, TLC, FiniteSets
+EXTENDS PolyP, TLC, FiniteSets, SequencesExt
 
 Force(f, n) == SubSeq(f, 1, n)      \* makes TLC build the sequence once (lazy functions recompute)
 
@@ -53,12 +53,12 @@ IPow(b, e) == IF e = 0 THEN 1 ELSE b * IPow(b, e - 1)
 \* (n_l / B) is divisible by the folding factor at every layer that is folded (otherwise the verifier
 \* reports DegreeTruncation and the prover would be left with an empty remainder), the domain exists in
 \* the field, and the prover channel accepts the domain (>= 8).
-Supported(P, n, B, N, R) ==
+SupportedSched(n, B, N, R) ==
   /\ IsPow2(n) /\ IsPow2(B) /\ B >= 2 /\ n >= B /\ n >= 8
   /\ N \in {2, 4, 8, 16}
-  /\ Log2(n) <= TwoAdic(P)
   /\ \A l \in 0..(NumLayers(n, B, N, R) - 1) :
         LET nl == n \div IPow(N, l) IN nl >= N /\ (nl \div B) % N = 0 /\ nl % B = 0
+Supported(P, n, B, N, R) == SupportedSched(n, B, N, R) /\ Log2(n) <= TwoAdic(P)
 
 (***************************************************************************)
 (* positions                                                               *)
@@ -87,6 +87,15 @@ FoldedAll(pos, n, N, L) ==
 (***************************************************************************)
 \* offset * w^i, i = 0..n-1 (1-based sequence)
 Coset(P, off, w, n) == Force([i \in 1..n |-> FMul(P, off, FPow(P, w, i - 1))], n)
+
+\* value of the polynomial c (extension coefficients, constant term first) at the BASE-field point x:
+\* multiplication by a base element acts coordinate by coordinate, so this is Horner's rule on each
+\* coordinate (FoldRight is evaluated iteratively by TLC; PolyP!PEval recurses once per coefficient)
+EvalBase(P, c, x, d) ==
+  Force([t \in 1..d |-> FoldRight(LAMBDA ck, acc : (ck[t] + x * acc) % P, c, 0)], d)
+\* evaluations of c over off * w^i, i = 0..n-1
+EvalsOver(P, d, c, off, w, n) ==
+  LET dom == Coset(P, off, w, n) IN Force([i \in 1..n |-> EvalBase(P, c, dom[i], d)], n)
 
 ESum(P, d, f, n) ==
   LET RECURSIVE S(_)
@@ -223,8 +232,16 @@ VLoop(o, com, prf, strict, depth, Lv, ns, g, mdp1, pos, ev) ==
                  IN IF mdp1 % o.N # 0 THEN "DegreeTruncation"
                     ELSE VLoop(o, com, prf, strict, depth + 1, Lv, m, FPow(o.P, g, o.N), mdp1 \div o.N, folded, nev)
 
-Verdict(o, dmax, com, prf, qe, pos, strict) ==
-  LET nv == NextPow2(dmax) * o.B
+\* The domain the verifier infers from the declared bound.  The contract of FriVerifier::new is
+\* "bound + 1 is a power of two"; the domain of a polynomial with dmax + 1 coefficients is
+\* NextPow2(dmax + 1) * blowup (VDomain with fixed = TRUE).  The code as found computed
+\* max_poly_degree.next_power_of_two() * blowup, which differs exactly for dmax = 1 (next_power_of_two(1)
+\* = 1): fixed = FALSE transcribes that; honest degree-1 instances are then rejected (finding F-C08-1,
+\* repaired in winterfell commit 5a1bc29; MCFri_found.cfg shows the design-level counterexample).
+VDomain(dmax, B, fixed) == (IF fixed THEN NextPow2(dmax + 1) ELSE NextPow2(dmax)) * B
+
+VerdictF(o, dmax, com, prf, qe, pos, strict, fixed) ==
+  LET nv == VDomain(dmax, o.B, fixed)
       g == W(o.P, nv)
       ncom == Len(com.layers) + 1
       Lv == NumLayers(nv, o.B, o.N, o.R)
@@ -232,6 +249,7 @@ Verdict(o, dmax, com, prf, qe, pos, strict) ==
      ELSE IF Len(qe) # Len(pos) THEN "NumPositionEvaluationMismatch"
      ELSE IF Lv > Len(prf.rows) THEN "oob"
      ELSE VLoop(o, com, prf, strict, 0, Lv, nv, g, dmax + 1, pos, qe)
+Verdict(o, dmax, com, prf, qe, pos, strict) == VerdictF(o, dmax, com, prf, qe, pos, strict, TRUE)
 
 \* what the honest prover commits to and sends
 HonestCom(c, t) == [layers |-> SubSeq(t.layers, 1, t.L), idx |-> t.folded, rem |-> t.rem]
@@ -245,10 +263,12 @@ QueryEvals(c) == Force([i \in 1..Len(c.pos) |-> c.evals[c.pos[i] + 1]], Len(c.po
 \* coset interpolation = coefficient form, for the evaluations of polynomial `poly` over off * <w>
 DrpLemma(P, d, poly, off, n, N, alpha) ==
   LET w == W(P, n)
-      ev == PEvalDomain(P, poly, off, w, n, d)
+      ev == EvalsOver(P, d, poly, off, w, n)
       byCoset == FoldEvals(P, d, ev, Coset(P, off, w, n), N, alpha)
-      byCoef == PEvalDomain(P, FoldCoeffs(P, d, poly, N, alpha), FPow(P, off, N), FPow(P, w, N), n \div N, d)
-  IN byCoset = byCoef
+      fc == FoldCoeffs(P, d, poly, N, alpha)
+      byCoef == PEvalDomain(P, Force(fc, Len(fc)), FPow(P, off, N), FPow(P, w, N), n \div N, d)
+  IN /\ byCoset = byCoef
+     /\ ev = PEvalDomain(P, poly, off, w, n, d)      \* EvalBase agrees with PolyP's Horner evaluation
 \* inverse-DFT coefficients = Lagrange interpolation
 RemainderLemma(P, d, ys, off, w) ==
   LET n == Len(ys)
